@@ -3,3 +3,4 @@ import DnaModel.Gen.Tables
 import DnaModel.Model.Seq
 import DnaModel.Model.Loc
 import DnaModel.Props.C18
+import DnaModel.Props.C19
